@@ -112,6 +112,9 @@ type c05Env struct {
 	relays    []*c05Relay
 	acct      *hAccount
 
+	// served: the node handed out a blinded proposal.  It has a builder's header whenever `blinded` is set, and then
+	// does so unless it was asked with a builder boost factor of zero (as the beacon API defines it)
+	served    bool
 	proposal  *api.VersionedProposal
 	randao    []string
 	signCalls []c05SignCall
@@ -195,7 +198,8 @@ func (e *c05Env) Proposal(_ context.Context, opts *api.ProposalOpts) (*api.Respo
 	e.proposals++
 	e.gotGraf = opts.Graffiti
 	e.gotReveal = opts.RandaoReveal
-	e.proposal = c05Proposal(e.version, e.blinded, c05Slot+e.slotOff)
+	e.served = e.blinded && (opts.BuilderBoostFactor == nil || *opts.BuilderBoostFactor != 0)
+	e.proposal = c05Proposal(e.version, e.served, c05Slot+e.slotOff)
 	if e.unhashable {
 		switch {
 		case e.proposal.Bellatrix != nil:
@@ -308,6 +312,7 @@ func c05Build(e *c05Env) *standardproposer.Service {
 		standardproposer.WithExecutionChainHeadProvider(e), standardproposer.WithProposalSubmitter(e),
 		standardproposer.WithRANDAORevealSigner(e), standardproposer.WithBeaconBlockSigner(e), standardproposer.WithBlobSidecarSigner(e),
 		standardproposer.WithUnblindFromAllRelays(e.all),
+		standardproposer.WithBuilderBoostFactor(91), // vouch's default
 	}
 	if e.graffiti != "none" {
 		params = append(params, standardproposer.WithGraffitiProvider(e))
@@ -489,7 +494,11 @@ func c05Check(e *c05Env, r *mc.Result) mc.Verdict {
 		}
 		return v
 	}
-	if !e.blinded {
+	if e.served && (e.auction == "none" || e.auction == "error") {
+		// nobody can unblind: the proposal is lost, although the node would have built the block itself if asked to
+		return fail("blinded-block-invited-without-relay-bids", "the auction gave no result (none was held, or it failed), yet the node was asked in a way that let it answer with a builder's blinded block, which nobody can unblind: the proposal is skipped instead of falling back to a locally built block")
+	}
+	if !e.served {
 		if len(e.submitted) != 1 {
 			return fail("not-submitted", fmt.Sprintf("%d submissions of the signed block", len(e.submitted)))
 		}
